@@ -46,6 +46,7 @@ func runC05(c *core.Ctx) {
 
 	c.Rule("C05.lexstate", "typestate (may-be-stopped dataflow over go/cfg): in every parser method that stops the lexer (calls a method storing nil into parser.lex), no method that dereferences parser.lex — directly or through same-receiver calls — is called after the stop on any path, until the field is assigned again")
 	c.Rule("C05.udf.selfwait", "A5 (must-done dataflow over go/cfg): a goroutine of package udf that is counted in a sync.WaitGroup field (calls X.Done) calls nothing that reaches X.Wait — directly or through static same-package calls — before its Done on any path; deferred calls are taken in their run order (last first, after the body)")
+	c.Rule("C05.udf.lockflow", "A5 (must-hold lock set over go/cfg): udf.Server.stopped/aborted — the flags that make stop()/abort() close their channels exactly once — are read and written only with s.mu held on all paths")
 	c.Rule("C05.retry", "A1 (termination): F41: in tick/stateful a method that calls itself on the same receiver (retry after fixing cached operand types) does so only on paths where an integer retry parameter was tested against a bound and is passed on incremented; recursion into child nodes is structural and not examined")
 	c05Recover(c)
 	if pkg := c.P.Pkg("tick/ast"); pkg != nil {
@@ -67,6 +68,9 @@ func runC05(c *core.Ctx) {
 		c05UDF(c, pkg)
 		c05UDFSend(c, pkg)
 		c05SelfWait(c, pkg)
+		n := ruleMustHold(c, "C05.udf.lockflow", pkg, holdSpec{Typ: "Server", Mu: "mu", Fields: map[string]bool{"stopped": true, "aborted": true},
+			Why: "stopped/aborted decide whether stop()/abort() close their channels: read or written outside the lock, two callers both see false and close the channel twice (panic: close of closed channel) — a peer error racing a task stop"})
+		c.Floor("C05.udf.lockflow", "selections of udf.Server.stopped/aborted", n, 6)
 	} else {
 		c.Undecided("C05.udf.panic", "anchor:udf", token.NoPos, "package not loaded")
 	}
